@@ -21,6 +21,8 @@ RULE = ('Hypothesis draws spatial mode sizes (1..3 modes of size 2..4, a size-1 
         'U U^H (Y X^+) phi = lambda phi with phi in range(U) (scale-free eigen-equations); inputs unchanged; returned modes '
         'consistent. Non-trivial: rank-deficient X (r < min(N, m)), gauge, pre-orthonormalised input with flags off, >= 2 spatial '
         'modes, threshold > 0, an active cut or a perturbed low-rank Y.')
+RULE += (' ' + 'Added classes: nearly symmetric dynamics (eigenvalues compared at 1e-9 when cond(X) < 1e3), a kept singular value 25 % above the cut line, NumPy-scalar thresholds; the inputs are compared bit by bit.')
+
 ASSUMPTIONS = [
     'oracle: numpy.linalg.svd / eig of the dense snapshot matrices',
     'real data; DMD eigenvalues are simple and non-zero (|lambda| > 1e-3 max|lambda|, pairwise gaps > 1e-3 max|lambda|), otherwise the case '
@@ -53,6 +55,9 @@ def dmd_case(draw):
         # 1 or the singular values of X itself, so that "the same relative cut" is well defined)
         case['threshold'] = 1e-3
         case['small'] = draw(st.integers(0, min(N, m) - r))
+        # the smallest kept singular value only 25 % above the cut line (1.25e-3 s_0): kept by "s / s[0] > threshold", lost by any
+        # other normalisation of the cut
+        case['tight_sv'] = r >= 2 and draw(st.booleans())
     return case
 
 
@@ -104,6 +109,8 @@ def body(c):
         Gm = np.linalg.qr(rng.standard_normal((m, r + small)))[0]
         sv = np.concatenate([np.sort(rng.uniform(0.1, 1.0, r))[::-1], 1e-5 * np.sort(rng.uniform(0.3, 1.0, small))[::-1]])
         sv[0] = 1.0
+        if c.get('tight_sv') and r >= 2:
+            sv[r - 1] = 1.25e-3
         X = scale * ((F * sv) @ Gm.T)
     else:
         X = scale * (rng.standard_normal((N, r)) @ rng.standard_normal((r, m)))
@@ -174,6 +181,8 @@ def body(c):
     lab = {c['variant'], 'rep_' + c['rep']}
     if c.get('ykind') == 'near_symmetric':
         lab.add('nearly_symmetric_dynamics')
+    if c.get('tight_sv') and c['threshold'] == 1e-3 and r >= 2:
+        lab.add('singular_value_just_above_the_cut')
     if c.get('update_in_place') and c['flags'] == [True, True] and c['threshold'] != 1e-3:
         # streaming use: the snapshot core of the SAME tensor-train object is replaced (here: snapshots mixed by an invertible
         # matrix) and the decomposition is asked for again with identical options -- it must describe the new data
